@@ -79,4 +79,10 @@ def check(tier, seed, t0):
 
 
 def replay(path, seed, t0):
+    """Replay cases are re-executed; a rejected recorded history cannot be replayed event by event (the objects live in the
+    harness process), so the recording with the same seed is repeated and validated again (quick tier)."""
+    recs = [json.loads(l) for l in open(path) if l.strip()]
+    tr = [r for r in recs if r.get("sub") == "trace_rejected"]
+    if tr:
+        return check("quick", int(tr[0].get("detail", {}).get("trace_seed", seed)), t0)
     vf.replay_file("C17", path, seed, t0)
